@@ -734,6 +734,27 @@ func (x *c05bRun) revoke(o int, sync bool) {
 	x.emit(c05bErrClass(resp, cl), "revoke", vh.I(int64(o)), c05bB(sync), vh.I(x.now))
 }
 
+// revokeLoadFault: forced expiry (as revoke … lazy) of a secret lease whose backend keeps refusing the revocation, with
+// ONE failing storage read of the lease entry at the moment revocationJob.OnFailure wants to mark the lease
+// irrevocable (a storage outage that outlasts the retry budget). The lease must still end irrevocable (or revoked).
+func (x *c05bRun) revokeLoadFault(o int) {
+	x.now++
+	k := x.k
+	l := k.leases[o]
+	k.p.FailKeyOnce("get", "sys/expire/id/"+l.leaseID, "OnFailure")
+	cl, resp := vhReq(k.c, logical.UpdateOperation, "sys/leases/revoke", k.root, map[string]any{"lease_id": l.leaseID, "sync": false})
+	res := c05bErrClass(resp, cl)
+	k.quiesce()
+	for i := 0; i < 400 && !k.p.kfFiredNow(); i++ {
+		time.Sleep(5 * time.Millisecond)
+	}
+	k.quiesce()
+	if !k.p.KeyFaultFired() {
+		res += ":nofault"
+	}
+	x.emit(res, "revokeloadfault", vh.I(int64(o)), vh.I(x.now))
+}
+
 // tokRevoke: auth/token/revoke (its own lease goes, the leases it issued are expired)
 func (x *c05bRun) tokRevoke(o int) {
 	x.now++
@@ -1074,6 +1095,19 @@ func c05bDirected() []func(x *c05bRun) {
 			x.reg(2, 600, 0, true)
 			x.restart(0)
 			x.renew(1, 60)
+		},
+		func(x *c05bRun) { // the lease entry cannot be read when the retry budget is spent / on an unrecoverable error: still resolved
+			x.reg(0, 3600, 7200, true)
+			x.reg(0, 3600, 7200, true)
+			x.setFail("always", 0)
+			x.revokeLoadFault(1)
+			x.renew(1, 60)
+			x.setFail("unrecoverable", 0)
+			x.revokeLoadFault(2)
+			x.restart(1)
+			x.setFail("none", 0)
+			x.revoke(1, true)
+			x.revoke(2, true)
 		},
 		func(x *c05bRun) { // role tokens: the request's explicit maximum survives renewals (role without / with a larger / with a smaller one)
 			x.roleCreate(600, 3600, 0, true)
